@@ -400,3 +400,93 @@ example : scan ([Item.plain 0 (by decide), Item.nft 0 (by decide), Item.plain 0 
   simp [scan, Item.slips, bound]
 
 end Saito.C13.Scan
+
+
+/-! ## Bound triples: the amounts (`Saito.AtrScan.payloads`, `acct`)
+
+What comes back from the rebroadcast of one transaction's collected outputs, for every list of outputs, every multiplier ≥ 1 and
+every fee. `acct false` is the tree as it stands (compared with the real blocks of the fee-paying triple histories, `acct …` lines):
+the payload of a TRIPLE comes back worth amount × multiplier while the fee is booked as collected — `triple_fee_not_deducted`;
+`acct true` is the rule of the property text, for which the books balance (`acct_conserved`). -/
+namespace Saito.C13.Amounts
+open Saito.AtrScan
+
+/-- the amounts are cut exactly as the types are: one payload per group of `scan`, a triple's payload being its middle slip -/
+theorem payloads_cut (l : List (Nat × Nat)) :
+    (payloads l).map (·.1) = (scan (l.map (·.1))).map (fun g => match g with | .triple _ _ _ => true | .single _ => false) := by
+  induction l using payloads.induct with
+  | case1 a b c rest hc ih => simp [payloads, scan, hc, ih]
+  | case2 a b c rest hc ih =>
+    have hc' : (a.1 == bound && b.1 != bound && c.1 == bound) = false := by simpa using hc
+    simp only [payloads, hc', List.map_cons, scan]
+    simpa [hc'] using ih
+  | case3 a rest hne ih =>
+    match rest, hne with
+    | [], _ => simp [payloads, scan]
+    | [b], _ => simp [payloads, scan] at ih ⊢
+    | b :: c :: r, hne => exact absurd rfl (hne b c r)
+  | case4 => simp [payloads, scan]
+
+/-- **the markers carry no value**: whatever amounts the two bound slips of a triple hold, only the payload's amount is accounted -/
+theorem triple_payload_only (x y p a : Nat) (l : List (Nat × Nat)) (h : p ≠ bound) :
+    payloads ((bound, x) :: (p, a) :: (bound, y) :: l) = (true, a) :: payloads l := by
+  have : (p != bound) = true := by simpa using h
+  simp [payloads, this]
+
+/-- every payload is counted once: total_rebroadcast_nolan is the sum of the payload amounts -/
+theorem acct_nolan (fd : Bool) (m f : Nat) (gs : List (Bool × Nat)) : (acct fd m f gs).nolan = sum (gs.map (·.2)) := by
+  induction gs with
+  | nil => simp [acct, sum]
+  | cons g gs ih => simp only [acct]; split <;> simp [sum, ih] <;> omega
+
+/-- **the books balance under the rule of the property** (value plus treasury payout minus the fee, or collected as fees): what
+    leaves the window plus what the treasury adds equals what comes back plus what is collected — for every list of groups -/
+theorem acct_conserved (m f : Nat) (hm : 1 ≤ m) (gs : List (Bool × Nat)) :
+    (acct true m f gs).nolan + (acct true m f gs).payout = sum (acct true m f gs).back + (acct true m f gs).fees := by
+  induction gs with
+  | nil => simp [acct, sum]
+  | cons g gs ih =>
+    have hle : g.2 ≤ g.2 * m := Nat.le_mul_of_pos_right _ hm
+    simp only [acct]
+    split
+    · rename_i hgt
+      simp only [sum, backAmt, Bool.not_true, Bool.and_false]
+      generalize g.2 * m = x at *
+      simp at *
+      omega
+    · simp only; omega
+
+/-- the tree as it stands: every rebroadcast TRIPLE comes back worth its fee too much — the books are off by exactly
+    fee × (number of rebroadcast triples); single outputs balance -/
+def rbTriples (m f : Nat) (gs : List (Bool × Nat)) : Nat := (gs.filter (fun g => g.1 && decide (g.2 * m > f))).length
+
+theorem triple_fee_not_deducted (m f : Nat) (hm : 1 ≤ m) (gs : List (Bool × Nat)) :
+    sum (acct false m f gs).back + (acct false m f gs).fees
+      = (acct false m f gs).nolan + (acct false m f gs).payout + f * rbTriples m f gs := by
+  induction gs with
+  | nil => simp [acct, sum, rbTriples]
+  | cons g gs ih =>
+    obtain ⟨t, a⟩ := g
+    have hle : a ≤ a * m := Nat.le_mul_of_pos_right _ hm
+    simp only [acct, rbTriples, List.filter_cons, backAmt] at ih ⊢
+    generalize a * m = x at hle ⊢
+    by_cases hgt : x > f
+    · cases t <;> simp [hgt, sum, Nat.mul_succ] at ih ⊢ <;> omega
+    · cases t <;> simp [hgt] at ih ⊢ <;> omega
+
+/-- without triples the tree as it stands balances too -/
+theorem singles_conserved (m f : Nat) (hm : 1 ≤ m) (gs : List (Bool × Nat)) (h : ∀ g ∈ gs, g.1 = false) :
+    (acct false m f gs).nolan + (acct false m f gs).payout = sum (acct false m f gs).back + (acct false m f gs).fees := by
+  have h0 : rbTriples m f gs = 0 := by
+    simp only [rbTriples, List.length_eq_zero_iff, List.filter_eq_nil_iff]
+    intro g hg; simp [h g hg]
+  have := triple_fee_not_deducted m f hm gs
+  rw [h0] at this; omega
+
+/-- non-vacuity and the witness replayed on the real code (a triple with payload 5000 between two plain outputs, fee 1200) -/
+example : (acct false 1 1200 (payloads [(0, 9000), (bound, 0), (0, 5000), (bound, 0), (0, 700)])).back = [7800, 5000]
+    ∧ (acct true 1 1200 (payloads [(0, 9000), (bound, 0), (0, 5000), (bound, 0), (0, 700)])).back = [7800, 3800]
+    ∧ (acct false 1 1200 (payloads [(0, 9000), (bound, 0), (0, 5000), (bound, 0), (0, 700)])).fees = 3100 := by
+  simp [payloads, acct, backAmt, bound]
+
+end Saito.C13.Amounts
